@@ -27,6 +27,23 @@ func (c *checker) replay() {
 			}
 			_, what, detail, err = c.evalTest(rg, rec.Prog)
 			c.putRig(rg)
+		case "test-chunk":
+			rg, e := c.w.newRig()
+			if e != nil {
+				fmt.Println("replay:", e)
+				os.Exit(3)
+			}
+			for _, p := range rec.History {
+				if _, w2, d2, e := c.evalTest(rg, p); e == nil && len(w2) > 0 && len(what) == 0 {
+					what, detail = w2, d2
+				}
+			}
+			if st, e := rg.initState(); e != nil {
+				what, detail = []string{"test-invocations-changed-the-node"}, []string{e.Error()}
+			} else if stateSig(st) != stateSig(c.s0) {
+				what, detail = []string{"test-invocations-changed-the-node"}, []string{"before: " + stateSig(c.s0), "after: " + stateSig(st)}
+			}
+			rg.close()
 		case "block":
 			progs := append(append([]string{}, rec.History...), rec.Prog)
 			var idx int
@@ -97,7 +114,7 @@ func (c *checker) replay() {
 		if len(what) > 0 {
 			fmt.Printf("replay %d: REPRODUCED %v\n   %v\n", i, what, detail)
 			rec.What, rec.Detail = what, detail
-			c.r.Violation("replay:"+what[0]+":"+rec.Prog, rec)
+			c.r.Violation(vkey("replay", what[0], rec.Prog), rec)
 		} else {
 			fmt.Printf("replay %d: agrees with the reference\n", i)
 		}
